@@ -278,7 +278,59 @@ def run_seq(ctx, path: Path, ops):
     return toks, (hx(data) if data is not None else "none"), done
 
 
+def two_libraries(ctx):
+    """two (three) collections on DIFFERENT paths whose writing sessions are open at the same time in one process: each is
+    its own insert-only map — nothing put into one may show up in, or be missing from, the other (model-free oracle; the
+    byte-level model has one file per world)."""
+    from molli.storage import Collection, UkvCollectionBackend
+    from harness import ukvlib
+    combos = [(64, 64), (1_000_000, 1_000_000), (1_000_000, -1), (0, 64), (-1, -1), (1_000_000, 0, 64)]
+    for ci, bufs in enumerate(combos):
+        paths = [ctx.scratch / f"two{ci}_{j}.ukv" for j in range(len(bufs))]
+        for p in paths:
+            p.unlink(missing_ok=True)
+        cols = [Collection(p, UkvCollectionBackend, readonly=False, bufsize=b) for p, b in zip(paths, bufs)]
+        ref = [dict() for _ in cols]
+        tag = {"two_libraries": {"bufsizes": list(bufs)}}
+        bad = None
+        import contextlib
+        for rnd in range(2):                   # two rounds of overlapping sessions on the same long-lived objects
+            with contextlib.ExitStack() as st:
+                for c in cols:
+                    st.enter_context(c.writing(timeout=5))
+                for step in range(6):
+                    j = (step + rnd) % len(cols)
+                    shared, own = f"k{rnd}{step // len(cols)}", f"own{j}r{rnd}s{step}"
+                    for k, v in ((shared, f"lib{j}:{shared}".encode()), (own, bytes([j]) * (step + 1))):
+                        try:
+                            cols[j][k] = v
+                            ref[j][k] = v
+                        except Exception as e:
+                            bad = bad or f"put {k!r} into library {j} raised {type(e).__name__}: {e}"
+                    for i, c in enumerate(cols):
+                        listed = sorted(c.keys())
+                        if listed != sorted(ref[i]) and not bad:
+                            bad = f"library {i} lists {listed[:6]} after its own puts {sorted(ref[i])[:6]}"
+                        for k, v in ref[i].items():
+                            try:
+                                got = c[k]
+                            except Exception as e:
+                                got = f"{type(e).__name__}"
+                            if got != v and not bad:
+                                bad = f"library {i}: key {k!r} reads {str(got)[:30]!r}, {v[:30]!r} was put into it"
+        for i, p in enumerate(paths):
+            hdr, recs, clean = ukvlib.scan_file(p.read_bytes())
+            onfile = {k.decode(): v for k, v in recs}
+            if (onfile != ref[i] or not clean) and not bad:
+                bad = f"file of library {i} holds {sorted(onfile)[:6]}, the pairs put into it are {sorted(ref[i])[:6]}"
+        ctx.case(f"two-libraries:{bufs}", True)
+        ctx.count("two_library_scenarios")
+        if bad:
+            ctx.violation("C02:libraries-on-different-paths-interfere", bad, tag)
+
+
 def run(ctx):
+    two_libraries(ctx)
     path = ctx.scratch / "col.ukv"
     n = 150 if ctx.quick() else 3000
     fixed = [
